@@ -3,7 +3,7 @@ Assembled from the no-ub theorems of the four API models (tracks / crates x
 schema 1.x / 2.x) and an adversarial-call search on the sanitizer harness."""
 from props import _combine
 
-_combine.install(globals(), "C15", ["C15_sites", "C15_tracks_v1", "C15_tracks_v2", "C15_crates_v1", "C15_crates_v2", "C15_tableapi", "C15_search"], dict(
+_combine.install(globals(), "C15", ["C15_sites", "C15_tracks_v1", "C15_tracks_v2", "C15_crates_v1", "C15_crates_v2", "C15_faults", "C15_tableapi", "C15_search"], dict(
     text="Partial: theorems `forall reachable / invariant-satisfying state, forall public call with ANY argument values, "
          "outcome != ub` over the executable API models (tracks / crates x schema 1.x / 2.x, 2.x table API), in which every "
          "undefined-behaviour source of the library's own code (vector index, empty-optional dereference, signed overflow, "
